@@ -78,8 +78,12 @@ pub fn run(ctx: &Ctx, rep: &mut Reporter) {
     if !ctx.slow() && (ctx.variant == "native" || ctx.variant == "debug") && ctx.shard < 4 && (ctx.only_case.is_none() || ctx.only_case == Some(HUGE_CASE)) {
         huge_case(ctx, rep);
     }
+    if (ctx.variant == "native" || ctx.variant == "debug") && (ctx.only_case.is_none() || ctx.only_case == Some(SWEEP_CASE)) {
+        // valid files too must be answered without panic, whatever the size of a method group
+        size_sweep(ctx, rep, "valid-file");
+    }
     for case_idx in ctx.case_range() {
-        if case_idx == HUGE_CASE {
+        if case_idx == HUGE_CASE || case_idx == SWEEP_CASE {
             continue;
         }
         let mut rng = ctx_rng(ctx, case_idx);
